@@ -66,18 +66,42 @@ def vspec(n, exts):
 
 
 # ---------------------------------------------------------------------------------------------- ideal cursor
+def cdr_frame(line):
+    """cdr <depth> <stack> <caps> <hexdata> <ops>: (stream, ops, start, limit, length) of the data reader's ideal cursor:
+    it stands behind the chunk header(s), ends with the innermost chunk body (or the parent's, or the data), reports the
+    PARENT's positions and the parent's length.  None when a header cannot be read."""
+    t = line.split()
+    depth = int(t[1])
+    st = Stream(t[4])
+    ops = [o for o in t[5].split(";") if o]
+    start, limit = 0, st.n
+    for _ in range(depth):
+        if limit - start < 8:
+            return None
+        ln = int.from_bytes(st.get(start + 4, 4), "little")
+        start += 8
+        limit = min(limit, start + ln)
+    return st, ops, start, limit, st.n
+
+
 def ideal_hist(line, impl):
-    """Specification side for a `hist` line: an ideal forward-only cursor over the same bytes.
+    """Specification side for a `hist` / `cdr` line: an ideal forward-only cursor over the same bytes.
     Returns (ok, why).  Nothing is claimed after the first operation that leaves the stream."""
     t = line.split()
-    st = Stream(t[3])
-    ops = [o for o in t[4].split(";") if o]
-    if impl in ("panic", "missing", "timeout", "unknown-stack") or impl.startswith("unknown"):
+    if t[0] == "cdr":
+        fr = cdr_frame(line)
+        if fr is None:
+            return impl == "hdr-err", "no chunk header to read: " + impl
+        st, ops, pos, n, total = fr
+    else:
+        st = Stream(t[3])
+        ops = [o for o in t[4].split(";") if o]
+        pos, n, total = 0, st.n, st.n
+    if impl in ("panic", "missing", "timeout", "unknown-stack", "hdr-err", "no-hook") or impl.startswith("unknown"):
         return False, "no observation: %s" % impl
     outs = impl.split(";")
     if len(outs) != len(ops):
         return False, "%d answers for %d operations" % (len(outs), len(ops))
-    pos, n = 0, st.n
     for i, (o, r) in enumerate(zip(ops, outs)):
         c = o[0]
         if c == "r":
@@ -110,16 +134,23 @@ def ideal_hist(line, impl):
             if r != "n:%d" % pos:
                 return False, "op %d position: %s, ideal %d" % (i, r, pos)
         elif c == "l":
-            if r != "n:%d" % n:
-                return False, "op %d length: %s, ideal %d" % (i, r, n)
+            if r != "n:%d" % total:
+                return False, "op %d length: %s, ideal %d" % (i, r, total)
     return True, "ideal"
 
 
 def stays_within(line):
     t = line.split()
-    n = Stream(t[3]).n
-    pos = 0
-    for o in t[4].split(";"):
+    if t[0] == "cdr":
+        fr = cdr_frame(line)
+        if fr is None:
+            return False
+        _, ops, pos, n, _ = fr
+    else:
+        n = Stream(t[3]).n
+        pos = 0
+        ops = t[4].split(";")
+    for o in ops:
         if not o:
             continue
         if o[0] in "xs":
